@@ -13,7 +13,7 @@ if REPO not in sys.path:
     sys.path.insert(0, REPO)
 
 import logging as _logging
-_logging.lastResort = None          # API calls inherit logging: keep library warnings out of the checks' stderr
+_logging.lastResort = _logging.NullHandler()   # API calls inherit logging: keep library warnings out of the checks' stderr
 
 VERIF = os.path.dirname(os.path.dirname(os.path.abspath(__file__)))
 PLUGINS = os.path.join(VERIF, "plugins")
